@@ -15,18 +15,22 @@
      the consumer (handler) taking one message from StateChan                 -> [Recv]
 
    Facts of the code the model keeps on purpose (they decide the theorems):
-     * a query started without forceRun lives ONLY in waitingQueries until it is pulled;
-       StartQuery checks for a duplicate qid in allRunningQueries only;
-     * CancelQuery and DeleteQuery look the qid up in allRunningQueries only, so for a waiting
-       query both are no-ops (CancelQuery's loop over waitingQueries is reached only when the qid
-       is ALSO in the running table);
+     * a query started without forceRun lives ONLY in waitingQueries until RunQuery moves it (under
+       arqMapLock) to allRunningQueries; StartQuery checks for a duplicate qid in
+       allRunningQueries only;
+     * CancelQuery and DeleteQuery look the qid up in allRunningQueries and, when it is not there,
+       take the first entry with that qid out of waitingQueries (both under arqMapLock, so a query
+       is always found in exactly one of the two places);
      * canRunQuery compares len(allRunningQueries) (forced and cancelled entries included) with
        MAX_RUNNING_QUERIES; forced starts do not look at it;
      * withLockRunQuery assigns allRunningQueries[qid] (overwrites), arms the timeout watcher and
-       sends READY, RUNNING on StateChan while arqMapLock is held; CancelQuery sends CANCELLED
-       while waitingQueriesLock is held; a send on a full channel blocks the holder of the lock;
-     * withLockDeleteQuery calls timeoutCancelFunc only when the query is not cancelled, so the
-       watcher of a cancelled query lives until its deadline.
+       sends READY, RUNNING on StateChan while arqMapLock is held (the channel of a query that
+       has never run is empty); CancelQuery sends CANCELLED with no lock held;
+     * withLockDeleteQuery always calls timeoutCancelFunc, so the watcher ends with the entry.
+   The code BEFORE the repairs fixes/C17-cancel-waiting-query and fixes/C17-release-timeout-watcher
+   (Cancel/Delete ignored waiting queries, CANCELLED was sent under waitingQueriesLock, the watcher
+   of a cancelled query was not released) is kept at the end of this file as [step_prefix] for the
+   documentation theorems C17_prefix_*.
 
    Ghost components (not in the code, used to state theorems): arrival serial [e_ser], [e_forced],
    the log of every message ever sent [e_log], the graveyard [dead], the admission log [admitted].
@@ -134,18 +138,22 @@ Definition run_query (e : entry) (s : st) : st :=
         (admitted s) (nser s) w.
 
 (* ---------- CancelQuery ---------- *)
-(* isCancelled := true; then, with waitingQueriesLock held, the first entry with this qid is taken
-   out of waitingQueries and CANCELLED is sent: on a full channel the sender blocks *)
+(* isCancelled := true, then CANCELLED is sent with no lock held: on a full channel only the
+   canceller waits (modelled as "not delivered", like an executor-side send) *)
 Definition cancel_entry (e : entry) : entry :=
   if has_room e then push CANCELLED (set_cancelled e) else set_cancelled e.
 
+(* the query is looked up in allRunningQueries, else taken out of waitingQueries (first entry
+   with the qid); a cancelled waiting query is in no table any more, its consumer gets CANCELLED *)
 Definition cancel (q : N) (s : st) : st :=
   match lookup q (running s) with
-  | None => s
-  | Some e =>
+  | Some _ =>
+    mkS (upd_qid q cancel_entry (running s)) (waiting s) (watchers s) (dead s)
+        (admitted s) (nser s) (wedged s)
+  | None =>
     let '(rm, wq) := remove_first q (waiting s) in
-    mkS (upd_qid q cancel_entry (running s)) wq (watchers s) (opt_cons rm (dead s))
-        (admitted s) (nser s) (negb (has_room e))
+    mkS (running s) wq (watchers s) (opt_cons (option_map cancel_entry rm) (dead s))
+        (admitted s) (nser s) (wedged s)
   end.
 
 (* executor-side send (no lock held): when the channel is full the sender waits; modelled as
@@ -195,10 +203,13 @@ Definition step (mx : nat) (s : st) (o : op) : st * out :=
   | Fail q => (exec_send q ERROR s, ONone)
   | Delete q =>
     match lookup q (running s) with
-    | None => (s, ONone)
+    | None =>
+      (* not started yet: taken out of the waiting queue, never started *)
+      let '(rm, wq) := remove_first q (waiting s) in
+      (mkS (running s) wq (watchers s) (opt_cons rm (dead s)) (admitted s) (nser s) false, ONone)
     | Some e =>
       (mkS (remove_qid q (running s)) (waiting s)
-           (if e_cancelled e then watchers s else remove_watcher_ser (e_ser e) (watchers s))
+           (remove_watcher_ser (e_ser e) (watchers s))
            (filter (has_qid q) (running s) ++ dead s) (admitted s) (nser s) false, ONone)
     end
   | Recv q =>
@@ -224,6 +235,16 @@ Definition nonforced (l : list entry) : nat := length (filter (fun e => negb (e_
 Definition term_of (e : entry) : option msg := find is_terminal (rev (e_log e)).
 Definition has_watcher (q : N) (s : st) : bool := existsb (fun w => snd w =? q) (watchers s).
 
+(* "no Start uses a qid that is still in a table": the server's qid counter guarantees it
+   (StartQuery's own duplicate check looks at allRunningQueries only) *)
+Fixpoint live_fresh (mx : nat) (s : st) (ops : list op) : bool :=
+  match ops with
+  | [] => true
+  | o :: r =>
+    (match o with Start q _ _ => negb (in_table q (running s ++ waiting s)) | _ => true end)
+    && live_fresh mx (fst (step mx s o)) r
+  end.
+
 (* messages an op may add to the channel of qid q *)
 Definition sends_of (q : N) (o : op) : nat :=
   match o with
@@ -238,3 +259,77 @@ Definition op_qid (o : op) : N :=
 (* the guard of the no-block theorem: at most 8 messages besides READY, RUNNING are ever sent per qid *)
 Definition send_budget_ok (ops : list op) : bool :=
   forallb (fun o => Nat.leb (sends (op_qid o) ops) 8) ops.
+
+(* ------------------------------------------------------------------ *)
+(* PRE-FIX documentation: querystatus.go before fixes/C17-cancel-waiting-query and
+   fixes/C17-release-timeout-watcher.  No longer the code.
+     * CancelQuery / DeleteQuery looked the qid up in allRunningQueries only: no-ops for a waiting query;
+     * CancelQuery removed an entry with the same qid from waitingQueries only when the qid was ALSO
+       running, and sent CANCELLED while holding waitingQueriesLock (a full channel wedged everything);
+     * withLockDeleteQuery skipped timeoutCancelFunc for a cancelled query.                       *)
+(* ------------------------------------------------------------------ *)
+Definition cancel_prefix (q : N) (s : st) : st :=
+  match lookup q (running s) with
+  | None => s
+  | Some e =>
+    let '(rm, wq) := remove_first q (waiting s) in
+    mkS (upd_qid q cancel_entry (running s)) wq (watchers s) (opt_cons rm (dead s))
+        (admitted s) (nser s) (negb (has_room e))
+  end.
+
+Definition step_prefix (mx : nat) (s : st) (o : op) : st * out :=
+  if wedged s then (s, OBlocked) else
+  match o with
+  | Start q async forced =>
+    if existsb (has_qid q) (running s) then (s, OErrExists)
+    else
+      let e := mkE (nser s) q async forced false [] [] in
+      if forced then
+        (run_query e (mkS (running s) (waiting s) (watchers s) (dead s) (admitted s) (S (nser s)) false), OOk)
+      else if Nat.leb MAX_WAITING (length (waiting s)) then (s, OErrFull)
+      else (mkS (running s) (waiting s ++ [e]) (watchers s) (dead s) (admitted s) (S (nser s)) false, OOk)
+  | Pull =>
+    if Nat.ltb (length (running s)) mx then
+      match waiting s with
+      | [] => (s, ONone)
+      | e :: wq =>
+        (run_query e (mkS (running s) wq (watchers s) (dead s) (e_ser e :: admitted s) (nser s) false), OOk)
+      end
+    else (s, ONone)
+  | Cancel q => (cancel_prefix q s, ONone)
+  | Fire q =>
+    match remove_watcher_q q (watchers s) with
+    | (None, _) => (s, ONone)
+    | (Some _, ws) =>
+      match lookup q (running s) with
+      | None => (mkS (running s) (waiting s) ws (dead s) (admitted s) (nser s) false, ONone)
+      | Some e =>
+        if has_room e then
+          (cancel_prefix q (mkS (upd_qid q (push TIMEOUT) (running s)) (waiting s) ws (dead s) (admitted s) (nser s) false), ONone)
+        else (s, ONone)   (* the TIMEOUT send waits outside any lock; the watcher stays *)
+      end
+    end
+  | Complete q => (exec_send q COMPLETE s, ONone)
+  | Fail q => (exec_send q ERROR s, ONone)
+  | Delete q =>
+    match lookup q (running s) with
+    | None => (s, ONone)
+    | Some e =>
+      (mkS (remove_qid q (running s)) (waiting s)
+           (if e_cancelled e then watchers s else remove_watcher_ser (e_ser e) (watchers s))
+           (filter (has_qid q) (running s) ++ dead s) (admitted s) (nser s) false, ONone)
+    end
+  | Recv q =>
+    match lookup q (running s) with
+    | None => (s, OEmpty)
+    | Some e =>
+      match e_chan e with
+      | [] => (s, OEmpty)
+      | m :: _ =>
+        (mkS (upd_qid q pop (running s)) (waiting s) (watchers s) (dead s) (admitted s) (nser s) false, OGot m)
+      end
+    end
+  end.
+
+Definition run_prefix (mx : nat) (s : st) (ops : list op) : st :=
+  fold_left (fun s o => fst (step_prefix mx s o)) ops s.
